@@ -280,7 +280,10 @@ class Paraxial:
         max_field = self.optic.fields.max_y_field
 
         if self.optic.field_type == 'object_height':
-            u1 = 0.1 * max_field / y[-1]
+            # the (reversed) object surface records the ray without
+            # propagating it: carry the height on to the object plane
+            z_obj = surfaces.positions[-1] - surfaces.positions[-2]
+            u1 = 0.1 * max_field / (y[-1] + z_obj * u[-1])
         elif self.optic.field_type == 'angle':
             u1 = 0.1 * np.tan(np.deg2rad(max_field)) / u[-1]
 
